@@ -74,6 +74,19 @@ JsrUnsupported(T) ==
             LET t == T[w].routes[r].pt[i] IN
             t.verb # "" \/ t.pre # "" \/ t.suf # "" \/ (t.kind = "tail" /\ i # Len(T[w].routes[r].pt))
 
+\* ---------- container.go:421 computeAllowedMethods (OPTIONS filter, CORS preflight) ----------
+\* a regular-expression walk over the WebServices and their routes; since the repair of this work only
+\* over the WebService the router selects for the URL (OptionsSelectedOnly = TRUE); FALSE = legacy: all
+CONSTANT OptionsSelectedOnly
+AllowedMethodsImpl(T, url, selected) ==
+  LET svcs == IF OptionsSelectedOnly /\ selected # 0 THEN {selected} ELSE 1..Len(T) IN
+  UNION {{T[w].routes[r].m : r \in {x \in 1..Len(T[w].routes) :
+                                  LET wm == Rx(T[w].root, url) IN
+                                  wm.ok /\ LET rm == Rx(T[w].routes[x].p, wm.final) IN rm.ok /\ rm.final \in {"", "/"}}} :
+         w \in svcs}
+\* the WebService CurlyRouter.SelectRoute returns for the URL (also on a route-level error), 0 if none
+CurlySelected(T, url) == DetectWs(Tokenize(url), T, 1, 0, -1)
+
 JsrOutcomes(T, req) ==
   LET Err(st, al) == [k |-> "err", ws |-> 0, rt |-> 0, params |-> <<>>, st |-> st, allow |-> al,
                       ran |-> 0, selp |-> "", selm |-> ""]
